@@ -2,7 +2,7 @@
 // OpenSSL itself (on a thread of its own), so that the client can do what QSslSocket never does: send its request and
 // then only a TLS close_notify (the TCP connection stays open) while it waits for the answer, half-close the TCP
 // connection, or split the request over records of its own choosing.  The same exchange is made over plain TCP.
-//   case ::= ( request ending delayMs (recordLen ..) expect200 [surplus [slowMs]] )      surplus: bytes the client sends beyond its request
+//   case ::= ( request ending delayMs (recordLen ..) expect200 [surplus [slowMs [reconfigMs]]] )      surplus: bytes the client sends beyond its request
 //     ending: 0 the client just waits; 1 close_notify after the request, TCP left open; 2 close_notify, then the writing
 //             side of the TCP connection is shut down; 3 the writing side is shut down without a close_notify
 //     delayMs: the handler answers that long after it was called (0: at once, from inside process())
@@ -79,6 +79,7 @@ protected:
 };
 
 struct ClientResult { bool handshake = false; QByteArray got; int end = 2; };
+static int g_reconfigMs = -1;    // the application sets the (same) TLS configuration again that long after the client started (certificate renewal)
 static int g_slowMs = 0;        // the client pauses that long after every read (a slow reader)      // end: 0 orderly end of stream, 1 error (reset), 2 nothing was read / time-out
 
 // blocking client on its own thread; [tls] false: the same over plain TCP (close_notify has no counterpart there)
@@ -150,6 +151,7 @@ Val oneExchange(bool tls, const QByteArray &request, int ending, int delayMs, co
     Server server(&handler);
     if (tls) server.setSslConfiguration(hxTlsConfig(0));
     if (!server.listen(QHostAddress::LocalHost, 0)) throw std::runtime_error("nolisten");
+    if (g_reconfigMs >= 0) QTimer::singleShot(g_reconfigMs, &server, [&server, tls]() { server.setSslConfiguration(tls ? hxTlsConfig(0) : QSslConfiguration()); });
     ClientResult res;
     std::atomic<bool> done(false);
     std::thread t(rawClient, server.serverPort(), tls, request, ending, pieces, surplus, &res, &done);
@@ -182,6 +184,7 @@ static Val run_tlsraw(const Val &c)
     bool hs = false;
     qint64 surplus = c.size() > 5 ? c.at(5).asInt() : 0;
     g_slowMs = c.size() > 6 ? int(c.at(6).asInt()) : 0;
+    g_reconfigMs = c.size() > 7 ? int(c.at(7).asInt()) : -1;
     Val a = oneExchange(true, request, ending, delayMs, pieces, surplus, &hs);
     Val b = oneExchange(false, request, ending, delayMs, pieces, surplus, nullptr);
     return Val::List({Val::Bool(hs), a, b});
